@@ -9,6 +9,10 @@ CONSTANTS
   FixOct0 = TRUE
   FixSkip = TRUE
   FixUncl = FALSE
+  FixCase = TRUE
+  FixItems = TRUE
+  Lenient <- LenNone
+  WithLex = FALSE
   Emit = FALSE
   WithBad = FALSE
 INVARIANT ImplEqualsClaimsE
